@@ -10,7 +10,9 @@
    property's postconditions (wake-up minimality by brute force inside TLC) on every record.
 3. The real classify / to_code / from_code are tabulated on a representative of every lattice point
    (+ chains of growing evidence with other representatives); Trace_Classify.tla checks the laws
-   Complete / Sound / Monotone on that table.
+   Complete / Sound / Monotone on that table.  classify_decrypted_tx is called on assembled v6
+   transactions (Orchard / Ironwood / transparent / Sapling parts, decrypted outputs); the trace spec
+   assembles the evidence from the logged projection and applies the same laws.
 """
 import json
 import os
@@ -20,7 +22,7 @@ from . import lib
 AREA = "Migration"
 TABLE = 11664
 CHUNK = 60000
-SCHED_KINDS = ["delay", "newdist", "heights", "zipsched", "expiry", "shuffle", "shufflein", "grid", "anchor",
+SCHED_KINDS = ["delay", "newdist", "heights", "zipsched", "expiry", "cexp", "shuffle", "shufflein", "grid", "anchor",
                "redraw", "earliest", "wakeups", "statewake"]
 HI = 2147483647
 OFF = 2147483648
@@ -41,6 +43,12 @@ def write_mc_cfg(path, hi, maxt, maxiv, kinds, invs):
 
 
 def model_check(ctx, d):
+    # rejection loops: terminate under strong fairness of an acceptable draw, and only then
+    r = lib.tlc(ctx, d, "Rejection", "MC_Rejection.cfg", workers=1, timeout=300)
+    lib.account_tlc(ctx, r)
+    r = lib.tlc(ctx, d, "Rejection", "MC_Rejection_unfair.cfg", workers=1, timeout=300, expect_ok=False)
+    if "Temporal property Terminates was violated" not in r.out and "Temporal properties were violated" not in r.out:
+        raise lib.ToolError("vacuity: without the fairness assumption the rejection loop should not be shown to terminate")
     r = lib.tlc(ctx, d, "MC_Classify", "MC_Classify.cfg", workers=8, timeout=900)
     lib.require_coverage(r, ["Eval"])
     if r.distinct != TABLE + 16:
@@ -75,10 +83,12 @@ def write_trace(path, recs):
 def describe(rec):
     """Human-readable one-liner of a scheduling record (heights decoded from offset-binary)."""
     r = dict(rec)
+    if r.get("some") is False:
+        r["out"] = None
     for k in ("start", "act", "fund", "tip", "prior", "bcast", "out"):
         if k in r and isinstance(r[k], int) and not (k == "out" and r.get("a") in ("shuffle", "shufflein")):
             r[k] = real(r[k])
-    for k in ("hs", "es", "ps", "below", "above"):
+    for k in ("hs", "es", "ps", "below", "above", "pe", "ce"):
         if k in r:
             r[k] = [real(x) for x in r[k]]
     if "tr" in r:
@@ -136,9 +146,7 @@ def sched_classes(recs):
         "redraw:none", "wakeups:overdue", "wakeups:folded", "wakeups:several", "wakeups:shared", "wakeups:near-top",
         "wakeups:err", "statewake:nonempty", "statewake:dead-excluded", "anchor:spin", "delay:spin", "shuffle:spin"]
     missing = [k for k in need if not c.get(k)]
-    if missing:
-        raise lib.ToolError("vacuity: the driver produced no record of class %s" % ", ".join(missing))
-    return c
+    return c, missing
 
 
 def validate_sched(ctx, d, recs, tag, max_report=3):
@@ -170,10 +178,16 @@ def validate_sched(ctx, d, recs, tag, max_report=3):
     return done, bad
 
 
-def run_classify_driver(ctx, bindir, chains, seed, name):
+def run_classify_driver(ctx, bindir, chains, dtx, seed, name):
+    """The classification trace: code tables, the whole classify table, chains, decrypted transactions."""
     path = ctx.path(name)
     lib.run_bin(os.path.join(bindir, "c17_driver"), ["classify", path, str(chains)],
                 env_extra={"VERIF_SEED": str(seed)}, timeout=600)
+    dpath = ctx.path("dtx_" + name)
+    lib.run_bin(os.path.join(bindir, "c17_driver"), ["dtx", dpath, str(dtx)],
+                env_extra={"VERIF_SEED": str(seed)}, timeout=1800)
+    with open(path, "a") as f, open(dpath) as g:
+        f.write(g.read())
     return path
 
 
@@ -190,17 +204,17 @@ def report_sched(ctx, bad):
                       "the real scheduling code's outcome is not allowed by Scheduling.tla for call %s" % describe(rec))
 
 
-def report_classify(ctx, seed, chains, k, detail):
-    lib.violation(ctx, {"property": "C17", "kind": "classify", "seed": seed, "chains": chains, "index": k,
+def report_classify(ctx, seed, chains, dtx, k, detail):
+    lib.violation(ctx, {"property": "C17", "kind": "classify", "seed": seed, "chains": chains, "dtx": dtx, "index": k,
                         "record": detail[:1500]},
-                  "zip318::classify / to_code / from_code breaks the laws of Classify.tla (complete on full "
-                  "evidence, sound w.r.t. every completion, monotone, codes round-trip) at record %d: %s"
+                  "zip318::classify / classify_decrypted_tx / to_code / from_code breaks the laws of Classify.tla "
+                  "(complete on full evidence, sound w.r.t. every completion, monotone, codes round-trip) at record %d: %s"
                   % (k, detail[:600]))
 
 
 def stage(ctx):
     d = lib.stage_specs(ctx, AREA)
-    for m in ("Scheduling", "Classify", "MC_Scheduling", "MC_Classify", "Trace_Scheduling", "Trace_Classify"):
+    for m in ("Scheduling", "Classify", "Rejection", "MC_Scheduling", "MC_Classify", "Trace_Scheduling", "Trace_Classify"):
         lib.sany(os.path.join(d, m + ".tla"))
     return d
 
@@ -216,20 +230,30 @@ def run(ctx):
     lib.run_bin(os.path.join(bindir, "c17_driver"), ["sched", spath, str(scale)],
                 env_extra={"VERIF_SEED": str(ctx.seed)}, timeout=1200)
     recs = read_trace(spath)
-    classes = sched_classes(recs)
     done, bad = validate_sched(ctx, d, recs, "sched")
     report_sched(ctx, bad)
+    # vacuity guard (classes are read off the code's outputs, so it is only meaningful -- and only
+    # enforced -- when every record was accepted)
+    classes, missing = sched_classes(recs)
+    if missing and not bad:
+        raise lib.ToolError("vacuity: the driver produced no record of class %s" % ", ".join(missing))
 
-    # (3) classification: the implementation's whole table
+    # (3) classification: the implementation's whole table, chains, decrypted transactions
     chains = 3000 if ctx.quick() else 30000
-    cpath = run_classify_driver(ctx, bindir, chains, ctx.seed, "classify.ndjson")
+    dtx = 1500 if ctx.quick() else 12000
+    cpath = run_classify_driver(ctx, bindir, chains, dtx, ctx.seed, "classify.ndjson")
     crecs = read_trace(cpath)
-    if len(crecs) != 1 + TABLE + chains:
+    if len(crecs) != 1 + TABLE + chains + dtx:
         raise lib.ToolError("classification trace has %d records" % len(crecs))
     ok, k, detail, eager = validate_classify(ctx, d, cpath)
     if not ok:
-        report_classify(ctx, ctx.seed, chains, k, detail)
+        report_classify(ctx, ctx.seed, chains, dtx, k, detail)
     decided = len({json.dumps(r, sort_keys=True) for r in crecs[1:1 + TABLE] if r["r"] != "U"})
+    dtx_classes = {}
+    for r in crecs[1 + TABLE + chains:]:
+        dtx_classes[r["r"]] = dtx_classes.get(r["r"], 0) + 1
+    if ok and any(dtx_classes.get(x, 0) < 10 for x in "UNPT"):
+        raise lib.ToolError("vacuity: decrypted-transaction records do not reach every label: %s" % dtx_classes)
 
     ctx.traces = done + (k if ok else max(0, k - 1))
     nontrivial = len({json.dumps(r, sort_keys=True) for r in recs
@@ -242,6 +266,7 @@ def run(ctx):
     ctx.add_sample({"classify_table_row": crecs[1 + 7057]})
     ctx.extra["trace_classes"] = {k2: v for k2, v in sorted(classes.items())}
     ctx.extra["classify"] = {"table_points": TABLE, "decided_points": decided, "chains": chains,
+                             "decrypted_transactions": dtx, "decrypted_transaction_labels": dtx_classes,
                              "decides_earlier_or_later_than_documented_procedure": eager}
     lib.mc_evidence(
         ctx,
@@ -251,7 +276,8 @@ def run(ctx):
              "non-empty result + lattice points at which the real classify decides",
         evaluations=len(recs) + len(crecs), distinct_nontrivial=nontrivial + decided,
         extra={"exhaustive": False, "classify_table_exhaustive": True,
-               "streams": ["chacha20(seed per record)", "zero", "ones", "alt 0x55../0xAA..", "counter"]},
+               "streams": ["chacha20(seed per record)", "zero", "ones", "alt 0x55../0xAA..", "counter",
+                           "lemire ceil(j 2^64/b)", "ages 2^(a-1)"]},
         assumptions=[
             "heights are logged in offset-binary (h - 2^31): the full u32 range is validated exactly, no scaling",
             "intervals and delay caps above 2^30 are not exercised (TLC integers)",
@@ -261,7 +287,8 @@ def run(ctx):
             "the equivalence with brute force over all heights is a TLC-checked theorem on the small model",
             "classify is judged by the laws Complete/Sound/Monotone, not by equality with the documented procedure: "
             "a classifier deciding earlier or later but lawfully is reported, not rejected",
-            "classify_decrypted_tx (evidence assembly from a decrypted transaction) is not exercised",
+            "classify_decrypted_tx is exercised on transactions assembled from generated (unproven, random) bundles "
+            "and hand-made decrypted outputs, not on transactions decrypted by the wallet",
         ])
 
 
@@ -283,10 +310,10 @@ def replay(ctx, path):
         if not bad:
             lib.log("replay: the re-executed call(s) now satisfy the specification")
     elif rep.get("kind") == "classify":
-        cpath = run_classify_driver(ctx, bindir, rep["chains"], rep["seed"], "replay_classify.ndjson")
+        cpath = run_classify_driver(ctx, bindir, rep["chains"], rep.get("dtx", 0), rep["seed"], "replay_classify.ndjson")
         ok, k, detail, eager = validate_classify(ctx, d, cpath)
         if not ok:
-            report_classify(ctx, rep["seed"], rep["chains"], k, detail)
+            report_classify(ctx, rep["seed"], rep["chains"], rep.get("dtx", 0), k, detail)
         else:
             lib.log("replay: the classification table now satisfies the specification")
     else:
@@ -391,7 +418,7 @@ def selftest(ctx):
             lambda r: okk("statewake")(r) and r["ws"] and any(t["state"] == "proved" and t["transfer"] for t in r["txs"]),
             lambda r: r["ws"][0]["c"].append([t["id"] for t in r["txs"] if t["state"] == "proved" and t["transfer"]][0]))
     # dropped field / dropped record are meaningless for independent records; a truncated table is not:
-    cpath = run_classify_driver(ctx, bindir, 200, ctx.seed, "classify.ndjson")
+    cpath = run_classify_driver(ctx, bindir, 200, 300, ctx.seed, "classify.ndjson")
     crecs = read_trace(cpath)
     ok, k, detail, eager = validate_classify(ctx, d, cpath)
     if not ok:
@@ -422,4 +449,14 @@ def selftest(ctx):
     chain = next(i for i, r in enumerate(crecs) if r["a"] == "chain" and r["pts"][-1]["r"] in ("P", "T"))
     ccorrupt("chain: the last answer flips the decision", chain,
              lambda c, i: c[i]["pts"][-2].__setitem__("r", "N"), at=chain + 1)
+    dpos = lambda pred: next(i for i, r in enumerate(crecs) if r["a"] == "dtx" and pred(r))
+    i = dpos(lambda r: r["r"] == "P")
+    ccorrupt("decrypted preparation with an incoming Orchard output still labelled", i,
+             lambda c, i: c[i]["oouts"].append("in"), at=i + 1)
+    i = dpos(lambda r: r["r"] == "T")
+    ccorrupt("decrypted crossing with a Sapling output still labelled", i, lambda c, i: c[i].__setitem__("sout", 1), at=i + 1)
+    ccorrupt("decrypted crossing with an ordinary expiry still labelled", i,
+             lambda c, i: c[i].__setitem__("expiry", c[i]["expiry"] + 40), at=i + 1)
+    i = dpos(lambda r: r["r"] == "U")
+    ccorrupt("decrypted transaction refuted without evidence", i, lambda c, i: c[i].__setitem__("r", "N"), at=i + 1)
     lib.log("selftest ok: %d corruptions rejected" % _expect_reject.n)
